@@ -53,26 +53,68 @@ impl FlatLit for VoidUndefinedSubtype {
 }
 pub open spec fn all_flat<K: FlatLit>(s: Seq<K>) -> bool { forall|i: int| 0 <= i < s.len() ==> (#[trigger] s[i]).flat_lit() }
 
-// R5 (contract-only, ASSUMED; bounded stand-in: unit U5 / Kani): the three literal-list operations.
-// Verus rejects their bodies (`continue 'outer` in `for`, `for &idx in ..rev()`).
+// ---- the three literal-list operations sub_vec_{union,intersect,diff} are extracted and verified (generic in K).
+// What a literal type K must satisfy for them to be set operations ("format-free fragment"): `is_subtype` is equality
+// on the elements present (`sc_flat`, a ghost member of SubtypeCheck), `clone` returns an equal value, `==` is
+// structural. Each is proved for the concrete K at the call sites (ProperSubtypeOps), not assumed.
+pub open spec fn clone_is_eq<K: Clone>() -> bool { forall|a: &K, b: K| #[trigger] call_ensures(K::clone, (a,), b) ==> *a == b }
+pub open spec fn eq_is_structural<K: PartialEq>() -> bool { K::obeys_eq_spec() && forall|a: K, b: K| #[trigger] a.eq_spec(&b) == (a == b) }
+spec fn all_sc<K: SubtypeCheck>(s: Seq<K>) -> bool { forall|x: K| #[trigger] s.contains(x) ==> x.sc_flat() }
+spec fn lit_ok<K: SubtypeCheck + Clone>(a: Seq<K>, b: Seq<K>) -> bool { all_sc(a) && all_sc(b) && clone_is_eq::<K>() }
+// x occurs among the first n elements of s
+pub open spec fn in_prefix<K>(s: Seq<K>, n: int, x: K) -> bool { exists|k: int| 0 <= k < n && k < s.len() && #[trigger] s[k] == x }
+// the first m indices, removed from the back, are each inside a vector that shrinks by one per removal
+pub open spec fn packed(s: Seq<usize>, m: int, n: int) -> bool { forall|a: int| 0 <= a < m ==> (#[trigger] s[a]) + (m - a) <= n }
+
+pub broadcast proof fn lemma_push_contains<K>(s: Seq<K>, a: K, x: K)
+    ensures #[trigger] s.push(a).contains(x) == (s.contains(x) || x == a)
+{
+    if s.push(a).contains(x) {
+        let k = choose|k: int| 0 <= k < s.push(a).len() && s.push(a)[k] == x;
+        if k < s.len() { assert(s[k] == x); }
+    }
+    if s.contains(x) { let k = choose|k: int| 0 <= k < s.len() && s[k] == x; assert(s.push(a)[k] == x); }
+    if x == a { assert(s.push(a)[s.len() as int] == x); }
+}
+pub broadcast proof fn lemma_in_prefix_step<K>(s: Seq<K>, n: int, x: K)
+    requires 0 <= n < s.len()
+    ensures #[trigger] in_prefix(s, n + 1, x) == (in_prefix(s, n, x) || s[n] == x)
+{
+    if in_prefix(s, n + 1, x) { let k = choose|k: int| 0 <= k < n + 1 && k < s.len() && #[trigger] s[k] == x; if k < n { assert(in_prefix(s, n, x)); } }
+    if in_prefix(s, n, x) { let k = choose|k: int| 0 <= k < n && k < s.len() && #[trigger] s[k] == x; assert(0 <= k < n + 1 && s[k] == x); }
+    if s[n] == x { assert(0 <= n < n + 1 && s[n] == x); }
+}
+pub broadcast proof fn lemma_in_prefix_all<K>(s: Seq<K>, x: K)
+    ensures #[trigger] in_prefix(s, s.len() as int, x) == s.contains(x), !in_prefix(s, 0, x)
+{
+    if s.contains(x) { let k = choose|k: int| 0 <= k < s.len() && s[k] == x; assert(0 <= k < s.len() && s[k] == x); }
+}
+pub broadcast proof fn lemma_index_contains<K>(s: Seq<K>, i: int)
+    requires 0 <= i < s.len()
+    ensures s.contains(#[trigger] s[i])
+{}
+// R16 (T1, assumed behaviour of std's slice::sort): same length, same elements. The body is the call it replaces.
 #[verifier::external_body]
-fn sub_vec_union<K: SubtypeCheck + Clone + Ord + FlatLit>(v1: &[K], v2: &[K]) -> (r: Result<Vec<K>>)
-    ensures all_flat(v1@) && all_flat(v2@) ==> r is Ok,
-            r is Ok && all_flat(v1@) && all_flat(v2@) ==> all_flat(r->Ok_0@)
-                && forall|x: K| #![trigger r->Ok_0@.contains(x)] #![trigger v1@.contains(x)] #![trigger v2@.contains(x)] r->Ok_0@.contains(x) == (v1@.contains(x) || v2@.contains(x)),
-{ unimplemented!() }
-#[verifier::external_body]
-fn sub_vec_intersect<K: SubtypeCheck + Clone + PartialEq + Ord + FlatLit>(v1: &[K], v2: &[K]) -> (r: Result<Vec<K>>)
-    ensures all_flat(v1@) && all_flat(v2@) ==> r is Ok,
-            r is Ok && all_flat(v1@) && all_flat(v2@) ==> all_flat(r->Ok_0@)
-                && forall|x: K| #![trigger r->Ok_0@.contains(x)] #![trigger v1@.contains(x)] #![trigger v2@.contains(x)] r->Ok_0@.contains(x) == (v1@.contains(x) && v2@.contains(x)),
-{ unimplemented!() }
-#[verifier::external_body]
-fn sub_vec_diff<K: SubtypeCheck + Clone + Ord + FlatLit>(v1: &[K], v2: &[K]) -> (r: Result<Vec<K>>)
-    ensures all_flat(v1@) && all_flat(v2@) ==> r is Ok,
-            r is Ok && all_flat(v1@) && all_flat(v2@) ==> all_flat(r->Ok_0@)
-                && forall|x: K| #![trigger r->Ok_0@.contains(x)] #![trigger v1@.contains(x)] #![trigger v2@.contains(x)] r->Ok_0@.contains(x) == (v1@.contains(x) && !v2@.contains(x)),
-{ unimplemented!() }
+fn vsort<K: Ord>(v: &mut Vec<K>)
+    ensures final(v)@.len() == old(v)@.len(),
+            forall|x: K| #![trigger final(v)@.contains(x)] #![trigger old(v)@.contains(x)] final(v)@.contains(x) == old(v)@.contains(x),
+{ v.sort() }
+// the ghost member `sc_flat` of SubtypeCheck is `flat_lit` on each literal type
+broadcast proof fn lemma_flat_sc_num(s: Seq<NumberRepresentationOrFormat>)
+    ensures #![trigger all_flat(s)] #![trigger all_sc(s)] all_flat(s) == all_sc(s)
+{
+    if all_flat(s) { assert forall|x: NumberRepresentationOrFormat| #[trigger] s.contains(x) implies x.sc_flat() by { let k = choose|k: int| 0 <= k < s.len() && s[k] == x; assert(s[k].flat_lit()); } }
+    if all_sc(s) { assert forall|i: int| 0 <= i < s.len() implies (#[trigger] s[i]).flat_lit() by { assert(s.contains(s[i])); assert(s[i].sc_flat()); } }
+}
+broadcast proof fn lemma_flat_sc_str(s: Seq<StringLitOrFormat>)
+    ensures #![trigger all_flat(s)] #![trigger all_sc(s)] all_flat(s) == all_sc(s)
+{
+    if all_flat(s) { assert forall|x: StringLitOrFormat| #[trigger] s.contains(x) implies x.sc_flat() by { let k = choose|k: int| 0 <= k < s.len() && s[k] == x; assert(s[k].flat_lit()); } }
+    if all_sc(s) { assert forall|i: int| 0 <= i < s.len() implies (#[trigger] s[i]).flat_lit() by { assert(s.contains(s[i])); assert(s[i].sc_flat()); } }
+}
+broadcast proof fn lemma_flat_sc_ta(s: Seq<TypedArrayKind>)
+    ensures #![trigger all_flat(s)] #![trigger all_sc(s)] all_flat(s) && all_sc(s)
+{}
 
 // T2: derived PartialEq on the literal payload types is structural equality
 impl vstd::std_specs::cmp::PartialEqSpecImpl for NumberRepresentationOrFormat {
